@@ -306,7 +306,7 @@ class C04(Check):
                        ">= 1 rule/scorer invocation; distinct = distinct SHA1 of the case")
 
     def budget(self):
-        return 900 if self.tier == "quick" else 12000
+        return 4000 if self.tier == "quick" else 40000
 
     def search_budget(self):
         return 2500 if self.tier == "quick" else 20000
@@ -481,6 +481,9 @@ class C04(Check):
             # the model's own solve terminates with Done N; equal rows unless first-optimum tie-breaking differs
             if call[0] != [0, n_ops]:
                 fails.append(Failure("tie", "model-solve", "the model's solve did not finish in N steps", observed=call[0]))
+            # the model's own run (first optimum; random draws = the positions the implementation drew): equal
+            # schedules are counted, a difference in tie-breaking among equally good operations is NOT a failure
+            self.note("model_solve_same_schedule" if call[5] == fake["rows"] else "model_solve_other_tiebreak")
         if case["filters"] == "default" and call[4] != [0, 2]:
             fails.append(Failure("tie", "default-filters", "model default filter composition", observed=call[4]))
         return fails
